@@ -422,6 +422,7 @@ type Contract struct {
 	Ensures    []*Clause
 	Modifies   []string // lvalue texts; nil = none given
 	HasMod     bool
+	FrameAssumed string // `frame assumed <reason>`: the modifies clause is NOT checked against the body
 	Loops      map[int]*LoopSpec
 	Inline     map[string]bool
 	Pure       map[string]bool // pure function-valued params
@@ -1039,6 +1040,15 @@ func (c *Contract) addClause(word, label, rest, src string) error {
 					c.Modifies = append(c.Modifies, m)
 				}
 			}
+		}
+	case "frame":
+		// frame assumed <reason>
+		if !strings.HasPrefix(rest, "assumed") {
+			return fmt.Errorf("frame assumed <reason>")
+		}
+		c.FrameAssumed = strings.TrimSpace(strings.TrimPrefix(rest, "assumed"))
+		if c.FrameAssumed == "" {
+			c.FrameAssumed = "no reason given"
 		}
 	case "loop":
 		f := strings.SplitN(rest, " ", 3)
